@@ -624,7 +624,13 @@ def _execute(plan, out, store, decoys_in, top, real, report_plan=None):
 
         if n_open_inlined and variant not in ("invalid",):
             # an include line survived inlining although its target exists
-            raise RuntimeError("inliner left an include: %r" % inlined)
+            # by the line grammar the inlined text contains no %include
+            # directive any more, yet loading it opened a resource
+            violation("inlined-text-opened-a-resource",
+                      "the inlined text has no %%include line left, but "
+                      "loading it opened %d resource(s): %r"
+                      % (n_open_inlined, inlined[:200]))
+            return out
         if variant in ("plain", "invalid", "define-conflict",
                        "define-repeat", "include-twice",
                        "include-via-define", "import-in-fragment",
